@@ -76,6 +76,7 @@ class Sim:
         self.cases: set = set()
         self.state_hashes: set = set()
         self._pending_abort = None
+        self.hist_chain = None
         self.known_hits: dict = {}
         self.word: list = []
         self.step_no = -1
@@ -367,13 +368,15 @@ class Sim:
         # ---- timeline (C02) bookkeeping + oracle
         if kind in ("undo", "redo"):
             self._check_history_step(op, out, pre, post)
+            self.hist_chain = "edit-undo" if (kind == "undo" and self.hist_chain == "edit" and out.get("val") is True) else None
             if self.violations:
                 return
         elif is_edit and cls == "accepted":
+            self.hist_chain = "edit"
             self.timeline.edit(self._snap(post))
             self.expected_emissions += 1
-            if self.timeline.p >= 2 and len(self.timeline.T) > self.timeline.p:
-                pass
+        elif kind in ("enable", "disable", "restart"):
+            self.hist_chain = None
 
         # ---- C20
         if self.active("C20") and self.n_subs:
@@ -537,7 +540,15 @@ class Sim:
                 if own:
                     self.violate("C02", f"C02.timeline.{kind}", f"state after {kind}() differs from timeline state {tl.p}: {diff[:3]}", op)
                     return
+                if self.active("C01") and self._adjacent_inverse(kind):
+                    # undo() directly after the edit it inverts (or redo() directly after
+                    # that undo): plain inversion of one edit, C01's own statement
+                    self.violate("C01", "C01.undo" if kind == "undo" else "C01.redo", f"{kind}() right after the {'edit' if kind == 'undo' else 'undo'} did not {'restore the pre-edit' if kind == 'undo' else 'reproduce the post-edit'} state: {diff[:3]}", op)
+                    return
                 return self._defer("history_diverged", str(diff[:2]))
+            if self.active("C01") and self._adjacent_inverse(kind):
+                self.stat("C01.eval")
+                self.case("history", kind, observe.shape_hash(self.tracks))
             self.count("h_" + kind + "_step")
             if kind == "undo" and tl.p < len(tl.T) - 2:
                 self.count("h_undo_deep")
@@ -555,6 +566,11 @@ class Sim:
                 return self._defer("history_diverged")
         if own:
             self.stat("C02.eval")
+
+    def _adjacent_inverse(self, kind):
+        """True if this undo directly follows the accepted edit it inverts, or this redo
+        directly follows such an undo (tracked through self.hist_chain)."""
+        return self.hist_chain == ("edit" if kind == "undo" else "edit-undo")
 
     def drain(self):
         """End-of-run: undo until False walks T[p-1]..T[0] in exactly p calls; then redo
@@ -765,9 +781,9 @@ class Sim:
             pos = [float(int(f * 2 * s)) / 2 for f, s in zip(op.get("pos", [0.5] * 3), self.fshape)]
             pk = tr.features.position_key
             if isinstance(pk, list):
-                for a, v in zip(pk, pos):
+                for a, v in list(zip(pk, pos))[: 1 if inv == "partial_pos" else None]:
                     attrs[a] = v
-            else:
+            elif inv != "partial_pos":
                 attrs[pk] = pos
         if op.get("bogus_attrs") and self.with_seg and pixels is not None:
             # a client may pass managed measurements along with the pixels; the stored
@@ -806,6 +822,8 @@ class Sim:
                 tags.append("append")
             elif pred is None:
                 tags.append("prepend")
+        if inv == "partial_pos" and (self.with_seg or not isinstance(tr.features.position_key, list)):
+            inv = "no_pos"
         if inv:
             tags.append("invalid_" + inv)
         resolved = {"node": node, "t": t, "track": tid, "force": force, "npix": None if pixels is None else len(pixels[0])}
@@ -1144,6 +1162,9 @@ class Sim:
         hi = [min(s, l + max(1, e)) for l, e, s in zip(lo, ext, fr.shape)]
         mask = np.zeros(fr.shape, bool)
         mask[tuple(slice(l, h) for l, h in zip(lo, hi))] = True
+        if op.get("big"):
+            # a broad stroke: everything from the origin to the far corner of the frame
+            mask[tuple(slice(l // 2, None) for l in lo)] = True
         vmode, varg = op["value"]
         inframe = sorted(n for n in g.nodes if self.time_of(n) == t)
         if vmode == "existing" and inframe:
@@ -1169,6 +1190,8 @@ class Sim:
                     hi = [min(s, l + max(1, e)) for l, e, s in zip(lo, ext, fr.shape)]
                 mask[:] = False
                 mask[tuple(slice(l, h) for l, h in zip(lo, hi))] = True
+                if op.get("big"):
+                    mask[tuple(slice(l // 2, None) for l in lo)] = True
         mask &= fr != value
         if not mask.any():
             return None
@@ -1272,6 +1295,8 @@ class Sim:
         except StepTimeout:
             raise
         except Exception as e:  # noqa: BLE001
+            if _from_dependency(e):
+                self.guard("dependency_abort", f"{kind}: {type(e).__name__}: {str(e)[:100]}")
             out["cls"] = "crash"
             out["exc"] = type(e).__name__
             out["msg"] = str(e)[:200]
@@ -1314,13 +1339,11 @@ class Sim:
             raise
         except (NotImplementedError,) as e:
             self.guard("dependency_abort", f"enable {keys}: {e}")
-        except ValueError as e:
-            if "math domain" in str(e):
-                self.guard("dependency_abort", f"enable {keys}: {e}")
-            out.update(cls="crash", exc="ValueError", msg=str(e)[:200])
         except KeyError as e:
             out.update(cls="refused", exc="KeyError", msg=str(e)[:200])
         except Exception as e:  # noqa: BLE001
+            if _from_dependency(e) or "math domain" in str(e):
+                self.guard("dependency_abort", f"enable {keys}: {type(e).__name__}: {str(e)[:100]}")
             out.update(cls="crash", exc=type(e).__name__, msg=str(e)[:200])
         if out["cls"] == "accepted":
             for k in keys:
@@ -1515,8 +1538,8 @@ class Sim:
         except StepTimeout:
             raise
         except Exception as e:  # noqa: BLE001
-            if isinstance(e, (NotImplementedError,)) or "math domain" in str(e):
-                self.guard("dependency_abort", str(e))
+            if isinstance(e, (NotImplementedError,)) or "math domain" in str(e) or _from_dependency(e):
+                self.guard("dependency_abort", str(e)[:120])
             if own:
                 self.violate("C01", "C01.inverse" if len(stages) < 2 else "C01.inverse2", f"primitive {kind} {resolved}: raised {type(e).__name__}: {e} after stages {stages}", op, out["tags"], type(e).__name__)
                 return out
